@@ -35,6 +35,7 @@ class Extractor:
     def __init__(self, model, fname, access=None, exact_small=False):
         self.m = model
         self.access = access          # enumerator value of the variable's access mode (default read-write)
+        self._counter = None          # the decoded-length local is never kept exact (set by compare_out)
         self.exact_small = exact_small   # keep one-byte locals exact (needed to follow decoded values)
         self.it = model.ms.it
         self.fn = model.prog.functions[fname]
@@ -113,7 +114,7 @@ class Extractor:
             elif is_lin(v) and v.is_const():
                 c = v.const
                 big = qt in ('unsigned long', 'long', 'size_t', 'uint64_t', 'int64_t', 'unsigned char', 'uint8_t')
-                if self.exact_small and qt in ('unsigned char', 'uint8_t'):
+                if self.exact_small and qt in ('unsigned char', 'uint8_t') and did != self._counter:
                     big = False
                     out.append((name, c))
                     continue
@@ -446,6 +447,7 @@ def compare_out(extractor, kind, chars=None):
     returns (disagreements with witness texts, #product states, #steps compared)"""
     ref, outf, r0 = OUT_REFS[kind]
     chars = chars if chars is not None else list(range(-128, 128))
+    extractor._counter = extractor.counter_local()
     init = extractor.initial()
     pairs = {(init, r0): None}
     work = [(init, r0)]
